@@ -31,6 +31,10 @@ func (s *Source) Read(p []byte) (int, error) {
 		return 0, nil
 	}
 	if s.Pos >= int64(len(s.B)) {
+		if s.FaultAt == int64(len(s.B)) { // the source fails where end-of-file belongs
+			s.Fired = true
+			return 0, ErrInjected
+		}
 		return 0, io.EOF
 	}
 	n := len(p)
